@@ -353,6 +353,14 @@ class History(object):
         return n
 
     # ---- one step --------------------------------------------------------
+    def burst(self, gap):
+        r = self.rnd.random()
+        if r < 0.1:
+            return max(1, gap)                   # all the way to the target
+        if r < 0.25:
+            return self.rnd.randint(40, 160)     # about one or two pages of closures
+        return self.rnd.choice([1, 2, self.rnd.randint(1, 12)])
+
     def step(self, target):
         rnd, peak = self.rnd, self.peak
         n = len(self.live)
@@ -371,21 +379,19 @@ class History(object):
             for _ in range(rnd.choice([1, 1, 3])):
                 self.fail()
         elif n and (r < 0.30 or n == target):
-            k = rnd.randint(1, 60)
+            k = rnd.choice([1, 2, rnd.randint(1, 12), rnd.randint(1, 60)])
             mode = rnd.choice(['lifo', 'random'])
             op = ('churn', k, mode)
             for _ in range(k):
                 self.drop(mode)
                 new.append(self.create())
         elif n < target or n == 0:
-            k = min(peak - n, rnd.choice([1, 2, rnd.randint(1, 12), rnd.randint(40, 160),
-                                          max(1, target - n)]))
+            k = min(peak - n, self.burst(target - n))
             op = ('grow', k)
             for _ in range(k):
                 new.append(self.create())
         else:
-            k = min(n, rnd.choice([1, 2, rnd.randint(1, 12), rnd.randint(40, 160),
-                                   max(1, n - target)]))
+            k = min(n, self.burst(n - target))
             mode = rnd.choice(['lifo', 'fifo', 'random', 'random'])
             op = ('drop', k, mode)
             for _ in range(k):
